@@ -32,6 +32,19 @@ def kappa_params(salt, decades, lam_exact=None):
     lam0 = 10.0 ** r.uniform(*decades) if lam_exact is None else float(lam_exact)
     q = np.array([r.gauss(0, 1) for _ in range(4)])
     q /= np.linalg.norm(q)
+    mode = r.random()
+    if mode < 0.15:
+        # a global rotation by a fraction of a degree: orientations ALMOST equal to lattice orientations (shortcuts for "unrotated" objects)
+        ang = math.radians(r.uniform(0.03, 0.45))
+        ax = q[:3] / np.linalg.norm(q[:3])
+        q = np.array([*(ax * math.sin(ang / 2)), math.cos(ang / 2)])
+    elif mode < 0.3:
+        # scalar part negative (rotation angle beyond 180 degrees): the same rotation as -q
+        q = -np.abs(q[3]) * np.array([0, 0, 0, 1.0]) + np.array([q[0], q[1], q[2], 0.0])
+        q = -q if q[3] > 0 else q
+        q /= np.linalg.norm(q)
+    elif mode < 0.4:
+        q = np.array([0.0, 0.0, 0.0, 1.0])      # no global rotation: the lattice orientations themselves (exact inverse pairs, axes in special planes)
     t0 = [r.uniform(-3, 3) for _ in range(3)]
     return {"lam0": lam0, "quat": q.tolist(), "t0": t0, "decade": int(math.floor(math.log10(lam0) + 1e-12))}
 
@@ -78,7 +91,12 @@ class Builder:
         if c == "Sphere":
             return m.magnet.Sphere(polarization=exc, diameter=g[0] * u, **kw)
         if c == "Tetrahedron":
-            return m.magnet.Tetrahedron(polarization=exc, vertices=np.array(g, dtype=float) * u, **kw)
+            verts = np.array(g, dtype=float) * u
+            # the same body with its vertices listed left-handed (static sources) or right-handed (sources with a path)
+            det = np.linalg.det(verts[1:] - verts[0])
+            if (det > 0) == (len(src["path"]) == 1):
+                verts = verts[[0, 1, 3, 2]]
+            return m.magnet.Tetrahedron(polarization=exc, vertices=verts, **kw)
         if c == "Triangle":
             return m.misc.Triangle(polarization=exc, vertices=np.array(g, dtype=float) * u, **kw)
         if c in ("TriangularMesh", "TriangleCollection"):
